@@ -55,6 +55,9 @@ Ltac unify_sqrt :=
           tryif constr_eq a b then fail else (replace (sqrt a) with (sqrt b) by (apply f_equal; ring))
       end
   end.
+Ltac c13_rw := repeat match goal with H : vk _ _ _ _ _ = _ |- _ => try rewrite !H; clear H end.
+Ltac c13_tie_const := intros; unfold Rdiv; forms_cbn; c13_rw; abs_sqrt_pos;
+  first [ solve [ring] | solve [field; repeat split; auto] | solve [field_simplify_eq; [ring | repeat split; auto ..]] ].
 Ltac c13_tie_sqrt := intros; forms_cbn; unify_sqrt; ring.
 """
 
@@ -101,9 +104,28 @@ def make_cs(name):
     return cs, list(cs.coord_system.base_scalars())
 
 
-def field_of(cs, fns):
+FPATHS = ["lambda", "from_vector", "from_sympy_vector"]    # ways to construct a field of the point (plus value lists of constants)
+
+
+def field_of(cs, fns, path="lambda"):
+    """`path` = how the VectorField object is constructed (point function / VectorField.from_vector /
+    VectorField.from_sympy_vector / stored value list)."""
     VectorField = impl()[2]
-    return VectorField(lambda p: [fn(p.coordinate(0), p.coordinate(1), p.coordinate(2)) for fn in fns], cs)
+    if path == "lambda":
+        return VectorField(lambda p: [fn(p.coordinate(0), p.coordinate(1), p.coordinate(2)) for fn in fns], cs)
+    es = [sympy.sympify(fn(*cs.coord_system.base_scalars())) for fn in fns]
+    if path == "list":
+        return VectorField(es, cs)
+    if path == "from_vector":
+        from symplyphysics.core.vectors.vectors import Vector  # pylint: disable=import-outside-toplevel
+        return VectorField.from_vector(Vector(es, cs))
+    if path == "from_sympy_vector":
+        from sympy.vector import Vector as SymVector  # pylint: disable=import-outside-toplevel
+        v = SymVector.zero
+        for e, bv in zip(es, cs.coord_system.base_vectors()):
+            v = v + e * bv
+        return VectorField.from_sympy_vector(v, cs)
+    raise ValueError(path)
 
 
 # ---------------------------------------------------------------------------------------------
@@ -140,7 +162,11 @@ def generic_lemmas(ctx):
         pts = [SG[k](*params) for k in range(n)] + [sympy.S.Zero] * (3 - n)
         return JetSer(list(coords), {SG[k]: 11 + k for k in range(3)}, {FG[k]: (k + 1, tuple(pts)) for k in range(3)})
 
+    sfx = [""]
+
     def add(name, js, expr, model, item, proof="c13_tie.", hyps=None):
+        name = name + sfx[0]
+        item = item + (f" (field built by {sfx[0][1:]})" if sfx[0] else "")
         try:
             t = js.term(expr)
             hy = (hyps or []) + sqrt_hyps(js, expr)
@@ -157,73 +183,119 @@ def generic_lemmas(ctx):
     cs = cart_cs()
     la, lb, lc, ld = Symbol("la"), Symbol("lb"), Symbol("lc"), Symbol("ld")
     broken = []
-    for m in (2, 3):
-        fld = field_of(cs, [(lambda a, b, c, k=k: FG[k](a, b, c)) for k in range(m)])
-        for n in (2, 3):
-            # curve, parameter t
-            traj = [SG[k](T) for k in range(n)]
+    for path in FPATHS:
+        sfx[0] = "" if path == "lambda" else f"_{path}"
+        for m in (2, 3):
+            fld = field_of(cs, [(lambda a, b, c, k=k: FG[k](a, b, c)) for k in range(m)], path)
+            for n in (2, 3):
+                # curve, parameter t
+                traj = [SG[k](T) for k in range(n)]
+                with recording() as cap:
+                    A.circulation_along_curve(fld, traj, (T, la, lb))
+                e, lims = cap[-1]
+                expect_limits(f"line_{m}_{n}", lims, ((T, la, lb),))
+                r = add(f"corr_integrand_line_{m}_{n}", ser([T], n), e, f"ev rho (line_integrand 0 {m} {n})",
+                    f"circulation_along_curve, {m}-component field, {n}-component trajectory")
+                if r:
+                    broken.append((f"corr_integrand_line_{m}_{n}" + sfx[0], "circulation_along_curve", r))
+                # surface, parameters u v
+                surf = [SG[k](U, V) for k in range(n)]
+                for i, par in enumerate((U, V)):
+                    with recording() as cap:
+                        A.circulation_along_curve(fld, surf, (par, la, lb))
+                    e, lims = cap[-1]
+                    r = add(f"corr_integrand_pullback_{'PQ'[i]}_{m}_{n}", ser([U, V], n), e, f"ev rho (line_integrand {i} {m} {n})",
+                        f"circulation_along_curve along the {'uv'[i]}-lines of a surface ({m},{n})")
+                    if r:
+                        broken.append((f"corr_integrand_pullback_{'PQ'[i]}_{m}_{n}" + sfx[0], "circulation_along_curve", r))
+                with recording() as cap:
+                    A.circulation_along_surface_boundary(fld, surf, (U, la, lb), (V, lc, ld))
+                e, lims = cap[-1]
+                expect_limits(f"stokes_{m}_{n}", lims, ((U, la, lb), (V, lc, ld)))
+                r = add(f"corr_integrand_stokes_{m}_{n}", ser([U, V], n), e, f"ev rho (stokes_surface_integrand {m} {n})",
+                    f"circulation_along_surface_boundary = flux_across_surface(curl F) ({m},{n})")
+                if r:
+                    broken.append((f"corr_integrand_stokes_{m}_{n}" + sfx[0], "circulation_along_surface_boundary", r))
+                with recording() as cap:
+                    A.flux_across_surface(fld, surf, (U, la, lb), (V, lc, ld))
+                e, lims = cap[-1]
+                expect_limits(f"flux_surface_{m}_{n}", lims, ((U, la, lb), (V, lc, ld)))
+                r = add(f"corr_integrand_flux_surface_{m}_{n}", ser([U, V], n), e, f"ev rho (flux_surface_integrand {m} {n})",
+                    f"flux_across_surface ({m},{n})")
+                if r:
+                    broken.append((f"corr_integrand_flux_surface_{m}_{n}" + sfx[0], "flux_across_surface", r))
+            # planar: flux across a curve (as a curve in t, and along the u/v lines of a planar surface)
             with recording() as cap:
-                A.circulation_along_curve(fld, traj, (T, la, lb))
+                A.flux_across_curve(fld, [SG[0](T), SG[1](T)], (T, la, lb))
             e, lims = cap[-1]
-            expect_limits(f"line_{m}_{n}", lims, ((T, la, lb),))
-            r = add(f"corr_integrand_line_{m}_{n}", ser([T], n), e, f"ev rho (line_integrand 0 {m} {n})",
-                f"circulation_along_curve, {m}-component field, {n}-component trajectory")
+            expect_limits(f"flux_curve_{m}", lims, ((T, la, lb),))
+            r = add(f"corr_integrand_flux_curve_{m}", ser([T], 2), e, f"ev rho (flux_curve_integrand 0 {m} 2)",
+                f"flux_across_curve, {m}-component field")
             if r:
-                broken.append((f"corr_integrand_line_{m}_{n}", "circulation_along_curve", r))
-            # surface, parameters u v
-            surf = [SG[k](U, V) for k in range(n)]
+                broken.append((f"corr_integrand_flux_curve_{m}" + sfx[0], "flux_across_curve", r))
+            surf2 = [SG[0](U, V), SG[1](U, V)]
             for i, par in enumerate((U, V)):
                 with recording() as cap:
-                    A.circulation_along_curve(fld, surf, (par, la, lb))
+                    A.flux_across_curve(fld, surf2, (par, la, lb))
                 e, lims = cap[-1]
-                r = add(f"corr_integrand_pullback_{'PQ'[i]}_{m}_{n}", ser([U, V], n), e, f"ev rho (line_integrand {i} {m} {n})",
-                    f"circulation_along_curve along the {'uv'[i]}-lines of a surface ({m},{n})")
+                r = add(f"corr_integrand_fluxform_{'AB'[i]}_{m}", ser([U, V], 2), e, f"ev rho (flux_curve_integrand {i} {m} 2)",
+                    f"flux_across_curve along the {'uv'[i]}-lines of a planar surface, {m}-component field")
                 if r:
-                    broken.append((f"corr_integrand_pullback_{'PQ'[i]}_{m}_{n}", "circulation_along_curve", r))
+                    broken.append((f"corr_integrand_fluxform_{'AB'[i]}_{m}" + sfx[0], "flux_across_curve", r))
+            # flux_across_surface_boundary: generic field, (div F)(S(u,v)) |S_u x S_v|.  For m = 3 the code takes the 3-D
+            # divergence at z = 0 (model flux_boundary_integrand rho 3 2; C13_flux_boundary_three_components says what that means)
             with recording() as cap:
-                A.circulation_along_surface_boundary(fld, surf, (U, la, lb), (V, lc, ld))
+                A.flux_across_surface_boundary(fld, surf2, (U, la, lb), (V, lc, ld))
             e, lims = cap[-1]
-            expect_limits(f"stokes_{m}_{n}", lims, ((U, la, lb), (V, lc, ld)))
-            r = add(f"corr_integrand_stokes_{m}_{n}", ser([U, V], n), e, f"ev rho (stokes_surface_integrand {m} {n})",
-                f"circulation_along_surface_boundary = flux_across_surface(curl F) ({m},{n})")
+            expect_limits(f"flux_boundary_{m}", lims, ((U, la, lb), (V, lc, ld)))
+            r = add(f"corr_integrand_flux_boundary_{m}", ser([U, V], 2), e, f"flux_boundary_integrand rho {m} 2",
+                f"flux_across_surface_boundary, generic {m}-component field on a parametrised planar surface", proof="c13_tie_sqrt.")
             if r:
-                broken.append((f"corr_integrand_stokes_{m}_{n}", "circulation_along_surface_boundary", r))
+                broken.append((f"corr_integrand_flux_boundary_{m}" + sfx[0], "flux_across_surface_boundary", r))
+    sfx[0] = ""
+    # stored value lists of constants k1 k2 k3 (VectorField([k1, k2, k3])): the field whose value on every trajectory is
+    # (k1, k2, k3) and whose derivatives vanish
+    ks = sympy.symbols("vpk1 vpk2 vpk3")
+    ksym = {k_: f"k{i + 1}" for i, k_ in enumerate(ks)}
+
+    def add_const(name, coords, expr, model, item, m):
+        js = JetSer(list(coords), {SG[k]: 11 + k for k in range(3)}, {}, symbols=ksym)
+        try:
+            t = js.term(expr)
+            hy = sqrt_hyps(js, expr)
+        except sx.Unsupported as e:
+            broken.append((name, item.split(",")[0], str(e)))
+            return
+        for i in range(1, m + 1):
+            hy += [f"vk rho {i} 0 0 0 = k{i}", f"vk rho {i} 1 0 0 = 0", f"vk rho {i} 0 1 0 = 0", f"vk rho {i} 0 0 1 = 0"]
+        h = "".join(f"{x} -> " for x in hy)
+        lemmas.append(coqrun.Lemma(name, f"forall (rho : val) (k1 k2 k3 : R), {h}{t} = {model}", "c13_tie_const.", item))
+        outputs[name] = expr
+
+    for m in (2, 3):
+        cfld = field_of(cs, [(lambda a, b, c, k_=k_: k_) for k_ in ks[:m]], "list")
+        for n in (2, 3):
+            surf = [SG[k](U, V) for k in range(n)]
             with recording() as cap:
-                A.flux_across_surface(fld, surf, (U, la, lb), (V, lc, ld))
-            e, lims = cap[-1]
-            expect_limits(f"flux_surface_{m}_{n}", lims, ((U, la, lb), (V, lc, ld)))
-            r = add(f"corr_integrand_flux_surface_{m}_{n}", ser([U, V], n), e, f"ev rho (flux_surface_integrand {m} {n})",
-                f"flux_across_surface ({m},{n})")
-            if r:
-                broken.append((f"corr_integrand_flux_surface_{m}_{n}", "flux_across_surface", r))
-        # planar: flux across a curve (as a curve in t, and along the u/v lines of a planar surface)
+                A.circulation_along_curve(cfld, [SG[k](T) for k in range(n)], (T, la, lb))
+            add_const(f"corr_integrand_line_{m}_{n}_constlist", [T], cap[-1][0], f"ev rho (line_integrand 0 {m} {n})",
+                f"circulation_along_curve, value list of {m} constants, {n}-component trajectory", m)
+            with recording() as cap:
+                A.circulation_along_surface_boundary(cfld, surf, (U, la, lb), (V, lc, ld))
+            add_const(f"corr_integrand_stokes_{m}_{n}_constlist", [U, V], cap[-1][0], f"ev rho (stokes_surface_integrand {m} {n})",
+                f"circulation_along_surface_boundary, value list of {m} constants ({n}-component surface)", m)
+            with recording() as cap:
+                A.flux_across_surface(cfld, surf, (U, la, lb), (V, lc, ld))
+            add_const(f"corr_integrand_flux_surface_{m}_{n}_constlist", [U, V], cap[-1][0], f"ev rho (flux_surface_integrand {m} {n})",
+                f"flux_across_surface, value list of {m} constants ({n}-component surface)", m)
         with recording() as cap:
-            A.flux_across_curve(fld, [SG[0](T), SG[1](T)], (T, la, lb))
-        e, lims = cap[-1]
-        expect_limits(f"flux_curve_{m}", lims, ((T, la, lb),))
-        r = add(f"corr_integrand_flux_curve_{m}", ser([T], 2), e, f"ev rho (flux_curve_integrand 0 {m} 2)",
-            f"flux_across_curve, {m}-component field")
-        if r:
-            broken.append((f"corr_integrand_flux_curve_{m}", "flux_across_curve", r))
-        surf2 = [SG[0](U, V), SG[1](U, V)]
-        for i, par in enumerate((U, V)):
-            with recording() as cap:
-                A.flux_across_curve(fld, surf2, (par, la, lb))
-            e, lims = cap[-1]
-            r = add(f"corr_integrand_fluxform_{'AB'[i]}_{m}", ser([U, V], 2), e, f"ev rho (flux_curve_integrand {i} {m} 2)",
-                f"flux_across_curve along the {'uv'[i]}-lines of a planar surface, {m}-component field")
-            if r:
-                broken.append((f"corr_integrand_fluxform_{'AB'[i]}_{m}", "flux_across_curve", r))
-        # flux_across_surface_boundary: generic field, (div F)(S(u,v)) |S_u x S_v|.  For m = 3 the code takes the 3-D
-        # divergence at z = 0 (model flux_boundary_integrand rho 3 2; C13_flux_boundary_three_components says what that means)
+            A.flux_across_curve(cfld, [SG[0](T), SG[1](T)], (T, la, lb))
+        add_const(f"corr_integrand_flux_curve_{m}_constlist", [T], cap[-1][0], f"ev rho (flux_curve_integrand 0 {m} 2)",
+            f"flux_across_curve, value list of {m} constants", m)
         with recording() as cap:
-            A.flux_across_surface_boundary(fld, surf2, (U, la, lb), (V, lc, ld))
-        e, lims = cap[-1]
-        expect_limits(f"flux_boundary_{m}", lims, ((U, la, lb), (V, lc, ld)))
-        r = add(f"corr_integrand_flux_boundary_{m}", ser([U, V], 2), e, f"flux_boundary_integrand rho {m} 2",
-            f"flux_across_surface_boundary, generic {m}-component field on a parametrised planar surface", proof="c13_tie_sqrt.")
-        if r:
-            broken.append((f"corr_integrand_flux_boundary_{m}", "flux_across_surface_boundary", r))
+            A.flux_across_surface_boundary(cfld, [SG[0](U, V), SG[1](U, V)], (U, la, lb), (V, lc, ld))
+        add_const(f"corr_integrand_flux_boundary_{m}_constlist", [U, V], cap[-1][0], f"flux_boundary_integrand rho {m} 2",
+            f"flux_across_surface_boundary, value list of {m} constants", m)
     # flux_across_surface_boundary with a field of constant (symbolic) divergence: ties the surface element
     c0, c1, c2 = Symbol("c0"), Symbol("c1"), Symbol("c2")
     lin = field_of(cs, [lambda a, b, c: c1 * a + c0 * b, lambda a, b, c: c2 * b + c0])
@@ -256,7 +328,7 @@ def generic_lemmas(ctx):
                 model = "ev rho volume_integrand_code"
         r = add(f"corr_integrand_volume_{s}", js, e, model, f"flux_across_volume_boundary [{s}]", hyps=hyps)
         if r:
-            broken.append((f"corr_integrand_volume_{s}", "flux_across_volume_boundary", r))
+            broken.append((f"corr_integrand_volume_{s}" + sfx[0], "flux_across_volume_boundary", r))
     # reparametrisation t = phi(s)
     PHI = Function("vpphi")
     for m, n in ((3, 3), (2, 2)):
@@ -272,7 +344,7 @@ def generic_lemmas(ctx):
         r = add(f"corr_integrand_reparam_{m}_{n}", js, e.doit(), f"ev rho (reparam_integrand {m} {n})",
             f"circulation_along_curve on a reparametrised trajectory C(phi(s)) ({m},{n})")
         if r:
-            broken.append((f"corr_integrand_reparam_{m}_{n}", "circulation_along_curve", r))
+            broken.append((f"corr_integrand_reparam_{m}_{n}" + sfx[0], "circulation_along_curve", r))
     return lemmas, broken, limits_bad, outputs
 
 
@@ -306,9 +378,9 @@ def rand_field(rng, dim, trig=False, lin=False):
     return comps
 
 
-def lam_field(cs, comps):
+def lam_field(cs, comps, path="lambda"):
     comps = [sympy.sympify(c) for c in comps]
-    return field_of(cs, [(lambda a, b, c, e=e: e.subs({X: a, Y: b, Z: c}, simultaneous=True)) for e in comps])
+    return field_of(cs, [(lambda a, b, c, e=e: e.subs({X: a, Y: b, Z: c}, simultaneous=True)) for e in comps], path)
 
 
 def is_zero(e):
@@ -348,7 +420,8 @@ def run_case(case):
     cs = cart_cs()
     kind = case["kind"]
     F = parse(case["field"])
-    fld = lam_field(cs, F)
+    path = case.get("path", "lambda")
+    fld = lam_field(cs, F, path)
     detail = {}
     if kind == "stokes":         # closed boundary curve(s) vs surface
         if case.get("params") == "base_scalars":     # non-parametrised: the base scalars x, y are the parameters
@@ -402,7 +475,7 @@ def run_case(case):
         c2, q = make_cs(case["sys"])
         Fq = [sympy.sympify(e, locals={"q0": q[0], "q1": q[1], "q2": q[2], "a": COEF[0], "b": COEF[1], "c": COEF[2]})
             for e in case["field_local"]]
-        fq = field_of(c2, [(lambda a_, b_, c_, e=e: e.subs(dict(zip(q, (a_, b_, c_))), simultaneous=True)) for e in Fq])
+        fq = field_of(c2, [(lambda a_, b_, c_, e=e: e.subs(dict(zip(q, (a_, b_, c_))), simultaneous=True)) for e in Fq], path)
         lims = [parse(l) for l in case["box"]]
         rhs = A.flux_across_volume_boundary(fq, tuple(lims[0]), tuple(lims[1]), tuple(lims[2]))
         lhs = 0
@@ -432,7 +505,7 @@ def run_case(case):
         detail = {"flux": str(f1), "flux_swapped": str(f2), "circulation": str(c1_), "circulation_swapped": str(c2_)}
         ok = is_zero(f1 + f2) and is_zero(c1_ + c2_) and free_of_coordinates(f1) and free_of_coordinates(c1_)
         # the planar projection: the |dS| integral of flux_across_surface_boundary is orientation independent
-        lin = lam_field(cs, parse(case["linear_field"]))
+        lin = lam_field(cs, parse(case["linear_field"]), path)
         b1_ = A.flux_across_surface_boundary(lin, surf[:2], (U, ua, ub), (V, va, vb))
         b2_ = A.flux_across_surface_boundary(lin, swapped[:2], (U, va, vb), (V, ua, ub))
         detail.update({"boundary_flux": str(b1_), "boundary_flux_swapped": str(b2_)})
@@ -468,6 +541,7 @@ def gen_cases(rng, tier_quick, only=None):
     def add(c):
         if only is None or c["kind"] in only:
             c["id"] = f"{c['kind']}:{len(cases)}"
+            c.setdefault("path", FPATHS[len(cases) % len(FPATHS)])     # rotate the way the field object is constructed
             cases.append(c)
     reps = 2 if tier_quick else 30
     for r in range(reps):
@@ -520,6 +594,20 @@ def gen_cases(rng, tier_quick, only=None):
         surf = [U * cos(V), 2 * U * sin(V)] + ([zc] if zc is not None else [])
         add({"kind": "swap_surface", "field": [S(e) for e in rand_field(rng, 3)], "surface": [S(e) for e in surf],
             "limits": [["0", "1"], ["0", S(2 * pi)]], "linear_field": [S(e) for e in rand_field(rng, 2, lin=True)]})
+    # a disc given by Cartesian inequalities (non-rectangular parameter domain: the ORDER of the iterated integral matters)
+    add({"kind": "stokes", "field": [S(e) for e in rand_field(rng, 3)], "surface": ["u", "v", "u*v"],
+        "limits": [["-sqrt(1 - v**2)", "sqrt(1 - v**2)"], ["-1", "1"]],
+        "boundary": circle_boundary(1, 1, sympy.sympify("cos(t)*sin(t)", locals={"t": T}))})
+    # a two-component field that mentions z, over a surface whose normal is not vertical
+    add({"kind": "stokes", "field": [S(COEF[0] * Z + Y + rand_mono(rng, [X, Y, Z], 2)), S(X * Z + rand_mono(rng, [X, Z], 2))],
+        "surface": [S(U * cos(V)), S(U * sin(V)), S(1 - U**2)], "limits": [["0", "1"], ["0", S(2 * pi)]],
+        "boundary": circle_boundary(1, 1, sympy.Integer(0))})
+    # stored value lists of constants
+    add({"kind": "stokes", "path": "list", "field": ["a", "b", "2"], "surface": [S(U * cos(V)), S(2 * U * sin(V)), S(U**2)],
+        "limits": [["0", "1"], ["0", S(2 * pi)]], "boundary": circle_boundary(1, 2, sympy.Integer(1))})
+    add({"kind": "green", "path": "list", "field": ["a", "3"], "boundary": rect_boundary(0, 1, 0, 2),
+        "region": {"type": "base_scalars", "xlimits": ["0", "1"], "ylimits": ["0", "2"]}})
+    add({"kind": "gauss", "path": "list", "field": ["a", "b", "c"], "box": [["0", "1"], ["-1", "1"], ["0", "2"]]})
     # regressions of the two repaired defects (fixed cases first, then seeded ones)
     for c in div_on_surface_cases(rng) + exchanged_base_scalar_cases(rng):
         add(c)
@@ -585,9 +673,20 @@ FUNCS_OF_KIND = {"stokes": ["circulation_along_curve", "circulation_along_surfac
     "swap_surface": ["flux_across_surface", "circulation_along_surface_boundary", "flux_across_surface_boundary"]}
 
 
+KNOWN_KEY_VALUE_LIST = "C13:value-list-field:not-evaluated-on-trajectory"
+
+
+def value_list_probe():
+    """A field stored as a value list of EXPRESSIONS in the base scalars (VectorField([y, -x, 0])): operators.py treats
+    it as the field with those components (curl = (0,0,-2)), VectorField.__call__ returns the stored list unevaluated."""
+    return [{"kind": "stokes", "path": "list", "field": ["y", "-x", "0"], "surface": [S(U * cos(V)), S(U * sin(V))],
+        "limits": [["0", "1"], ["0", S(2 * pi)]], "boundary": circle_boundary(1, 1)}]
+
+
 def report_case(ctx, c, detail, key=None):
     ctx.violation(key or f"C13:e2e:{c['kind']}:{c['field']}:{c.get('surface', c.get('trajectory', c.get('box', '')))}",
-        f"the two computation paths disagree / leave coordinate variables ({c['kind']}) on field {c['field']}: {detail}",
+        f"the two computation paths disagree / leave coordinate variables ({c['kind']}) on field {c['field']} "
+        f"(field object built by {c.get('path', 'lambda')}): {detail}",
         {"kind": "e2e", "item": c["kind"], "input": c, "observed": detail,
             "expected": "equal results (negated for orientation reversal), free of coordinate variables",
             "theorem_or_tie": "end-to-end agreement of the library's two computation paths"}, found_input=True)
@@ -644,6 +743,16 @@ def run(ctx):
     if cases:
         ctx.sample({"e2e_case": cases[0]})
     ctx.log(f"end-to-end: {n_ok}/{len(cases)} agree")
+
+    # 2b. probe: value list of expressions in the base scalars
+    for c in value_list_probe():
+        try:
+            okc, detail = run_case(c)
+        except Exception as e:  # pylint: disable=broad-except
+            okc, detail = False, {"exception": f"{type(e).__name__}: {e}"}
+        ctx.evaluated(1, 1)
+        if not okc:
+            report_case(ctx, c, detail, key=KNOWN_KEY_VALUE_LIST)
 
     # 3. decide failed / untranslatable ties
     failed = [(lm.name, lm.item, res[lm.name], lm.statement) for lm in lemmas if res.get(lm.name) != "ok"]
